@@ -13,7 +13,9 @@ NN(p) == Bin("!=", p, Null)
 Guard1(p, e, d) == Tern(NN(p), e, d)
 Direct == {Rd(A, "ival"), Bin("+", Rd(A, "ival"), Rd(B, "jval")), Tern(Rd(A, "flag"), Rd(A, "ival"), Rd(B, "ival")),
            Tern(Bin(">", Rd(A, "ival"), IntL(0)), Rd(A, "ival"), Rd(B, "jval")),
-           Bin("+", Rd(A, "ival"), Rd(A, "ival")), Tern(And(Rd(A, "flag"), Rd(B, "flag")), Rd(A, "jval"), IntL(7))}
+           Bin("+", Rd(A, "ival"), Rd(A, "ival")), Tern(And(Rd(A, "flag"), Rd(B, "flag")), Rd(A, "jval"), IntL(7)),
+           \* read-only properties with a NOTIFY signal (one of them FINAL): they change from inside the object
+           Rd(A, "rdonly"), Rd(A, "fin"), Bin("+", Rd(A, "fin"), Rd(B, "ival")), Tern(Rd(A, "flag"), Rd(B, "fin"), Rd(A, "rdonly"))}
 Chain1 == {Rd(p, "ival") : p \in P1} \cup {Guard1(p, Rd(p, "ival"), IntL(7)) : p \in P1}
           \cup {Guard1(p, Bin("+", Rd(p, "ival"), Rd(A, "jval")), Rd(B, "jval")) : p \in P1}
           \cup {Tern(Rd(A, "flag"), Guard1(p, Rd(p, "jval"), IntL(1)), Rd(B, "ival")) : p \in P1}
@@ -47,7 +49,15 @@ Stmts == {
   <<Sw(Rd(A, "ival"), <<Case(Rd(B, "ival"), <<Ret(IntL(1))>>)>>, Def(0, <<BrkS(0)>>)), Let("p", Rd(A, "ptr")), If(NN(L), Ret(Rd(L, "jval")), None), Ret(IntL(2))>>,
   <<If(Rd(A, "flag"), Block(<<Let("p", Rd(A, "ptr")), If(NN(L), Ret(Rd(L, "ival")), None)>>), Block(<<Let("p", Rd(B, "ptr")), If(NN(L), Ret(Rd(L, "ival")), None)>>)), Ret(IntL(3))>>
 }
-Progs == {PE(e) : e \in Direct \cup Chain1 \cup Chain2 \cup Chain3 \cup PtrCmp} \cup {PB(b) : b \in Stmts}
+\* list-valued targets: a list local built from constants or read from a property, one element overwritten from a property read
+ListProgs == {[prop |-> "items", body |-> Block(b)] : b \in {
+  <<Let("l", Arr(<<Str("p"), Str("q")>>)), AsgSub("l", IntL(1), Rd(A, "text")), Ret(Lv("l"))>>,
+  <<Let("l", Arr(<<Str("p"), Str("q")>>)), AsgSub("l", IntL(0), Rd(B, "text")), AsgSub("l", IntL(1), Rd(A, "textB")), Ret(Lv("l"))>>,
+  <<Let("l", Rd(A, "items")), If(Un("!", Call("isEmpty", <<Lv("l")>>)), AsgSub("l", IntL(0), Rd(B, "text")), NoneS(0)), Ret(Lv("l"))>>,
+  <<Let("l", Arr(<<Rd(A, "text"), Str("k")>>)), Ret(Lv("l"))>>,
+  <<Ret(Arr(<<Rd(A, "text"), Rd(B, "text")>>))>>,
+  <<Let("l", Arr(<<Str("p"), Str("q")>>)), If(Rd(A, "flag"), AsgSub("l", IntL(0), Str("z")), NoneS(0)), Ret(Lv("l"))>>}}
+Progs == ListProgs \cup {PE(e) : e \in Direct \cup Chain1 \cup Chain2 \cup Chain3 \cup PtrCmp} \cup {PB(b) : b \in Stmts}
          \cup {[prop |-> "text", body |-> SExpr(Guard1(p, Rd(p, "text"), Str("n")))] : p \in P1}
          \cup {[prop |-> "flag", body |-> SExpr(And(NN(p), Rd(p, "flag")))] : p \in P1}
          \cup {[prop |-> "ptr", body |-> SExpr(Guard1(p, Rd(p, "ptr"), A))] : p \in P1}
